@@ -172,7 +172,7 @@ def strings_of(v):
 
 def gen_values(ctx):
     rnd = random.Random(ctx['seed'] * 23 + 707)
-    nmax = 4 if ctx['tier'] == 'quick' else 6
+    nmax = 4 if ctx['tier'] == 'quick' else 5
     vals = []
     for n in range(1, nmax + 1):
         vals.extend(trees(n))
@@ -214,7 +214,7 @@ def tie(ctx, model_ok=True):
     vals += [W('a'), W2('x'), [W('a'), W('b', [None, W2('c')])], {'k': W('a', {'x': None}), 'l': [W2('')]}, W('', W('in', 1.5))]
     indents = [None, 0, 1, 2, 3, 4, 5, 6, 7, 8]
     res = {'evaluations': 0, 'disagreements': [], 'failing': [], 'samples': [], 'exhaustive': True,
-           'rule': (f'ALL plain trees with <= {4 if ctx["tier"] == "quick" else 6} nodes over leaves {LEAVES!r}, [] and {{}} '
+           'rule': (f'ALL plain trees with <= {4 if ctx["tier"] == "quick" else 5} nodes over leaves {LEAVES!r}, [] and {{}} '
                     f'({nex} trees) x indent in {indents} x ensure_ascii in (True, False); strings: specials (quotes, backslash, '
                     'controls, DEL, NEL, LS/PS, lone surrogates, non-BMP) as values and keys, '
                     + ('every BMP code point' if ctx['tier'] != 'quick' else 'code points 0-0x17F, 0x2000-0x202F and BMP edges')
